@@ -58,6 +58,11 @@ LDepth(L) == IF HasX(L) THEN 1 + LDepth(L.x)
                     1 + (IF L.xs = <<>> THEN 0 ELSE SeqMax([j \in 1..Len(L.xs) |-> LDepth(L.xs[j])]))
              ELSE 0
 
+RECURSIVE LNodes(_)
+LNodes(L) == IF HasX(L) THEN 1 + LNodes(L.x)
+             ELSE IF L.c \in {"Record", "Union"} THEN 1 + SeqSum([j \in 1..Len(L.xs) |-> LNodes(L.xs[j])])
+             ELSE IF L.c = "NoLayout" \/ L.c = "Sink" THEN 0 ELSE 1
+
 \* bit k (0-based) of a BitMasked mask
 Bit(L, k) == LET byte == L.m[(k \div 8) + 1]
                  sh   == IF L.lsb = 1 THEN k % 8 ELSE 7 - (k % 8)
